@@ -133,6 +133,23 @@ def coq_op(op):
     return f"(MSlice {cz(op[1])} {cz(op[2])} {cbool(op[3])})"
 
 
+def shift_ops(ops, d):
+    """move a history without series in time"""
+    out = []
+    for o in ops:
+        if o[0] in ("add", "remove", "rseries"):
+            out.append([o[0], o[1] + d, o[2] + d] + list(o[3:]))
+        elif o[0] in ("addmany", "removemany"):
+            out.append([o[0], [[it[0] + d, it[1] + d] + list(it[2:]) for it in o[1]]])
+        elif o[0] == "slice":
+            out.append(["slice", o[1] + d, o[2] + d, o[3]])
+        elif o[0] == "remove_fetched":
+            out.append(["remove_fetched", o[1] + d, o[2] + d])
+        else:
+            out.append(o)
+    return out
+
+
 class MemFamily(Family):
     name = "histories"
     header = "From CG Require Import Harness.MemChk.\n"
@@ -240,6 +257,8 @@ class MemFamily(Family):
                 a = BASE + rng.choice([-DAY, 0, 2 * 3600, DAY])
                 ops.insert(rng.randrange(len(ops) + 1), ["remove_fetched", a, a + rng.choice([6 * 3600, DAY, 2 * DAY])])
             ops.append(["slice", BASE - DAY, BASE + 5 * DAY, False])
+            if not any(o[0] == "addpat" for o in ops) and rng.random() < 0.3:
+                ops = shift_ops(ops, -BASE)           # the same history around the Unix epoch: edges at 0, negative instants
             yield dict(ops=ops)
 
     def run_impl(self, case):
